@@ -1543,6 +1543,10 @@ func genCase(t *rapid.T) (segCase, string) {
 
 	// which tracks get a tfra
 	lay.Mfra = mode == modeIsm || rapid.IntRange(0, 3).Draw(t, "mfra") == 0
+	if lay.Mfra && rapid.IntRange(0, 2).Draw(t, "mfraLenSizes") == 0 {
+		// traf / trun / sample numbers of the tfra entries in 1-4 bytes each
+		lay.MfraLenSizes = rapid.IntRange(1, 63).Draw(t, "mfraLenSizesValue")
+	}
 	if lay.Mfra {
 		lay.MfraFirstTrackOnly = rapid.Bool().Draw(t, "mfraFirstOnly")
 	}
@@ -1891,6 +1895,7 @@ func classify(c *segCase, mode string) (bool, []string) {
 	add(c.Layout.TopSidx, "sidx-existing", "sidx-absent")
 	add(c.Layout.TopSidxGap > 0, "sidx-existing-with-first-offset", "")
 	add(c.Layout.TopSidxSplit > 0, "top-level-index-split-over-two-sidx", "")
+	add(c.Layout.MfraLenSizes > 0, "tfra-wide-number-fields", "")
 	add(c.AddIfNotExists, "addIfNotExists", "addIfNotExists-false")
 	add(c.NonZeroEPT, "nonZeroEPT", "zeroEPT")
 	add(c.Layout.TopSidx || c.AddIfNotExists, "sidx-in-output", "sidx-not-in-output")
